@@ -336,6 +336,7 @@ type schedOutcome struct {
 	onceContended  int
 	onceBlocked    int
 	realBlocked    int
+	gcs, gcDone    int
 	preemptions    int
 	midInitSwitch  int
 	pairSet        map[uint32]struct{}
@@ -396,7 +397,7 @@ func phaseOf(site uint16) string {
 
 // runSchedule executes the clients' scripts on env under dec. trees[i] is client i's
 // private tree pool (pre-filled for RenderPre operations).
-func runSchedule(env *Env, clients [][]Op, trees []map[int]*treeHandle, dec decider) *schedOutcome {
+func runSchedule(env *Env, clients [][]Op, trees []map[int]*treeHandle, dec decider, gcAt []int) *schedOutcome {
 	n := len(clients)
 	out := &schedOutcome{results: make([][]OpResult, n), pairSet: map[uint32]struct{}{}, phaseOverlap: map[string]int{}, sitesPreempted: map[uint16]int{}}
 	s := &simState{central: newGate(), byGoid: map[uint64]*worker{}}
@@ -541,6 +542,13 @@ func runSchedule(env *Env, clients [][]Op, trees []map[int]*treeHandle, dec deci
 				}
 				out.deadlock = "no worker can make progress: " + strings.Join(who, "; ")
 				break
+			}
+			if contains(gcAt, out.steps) && out.gcDone != out.steps+1 {
+				// environment event: garbage collection while every worker is parked
+				out.gcDone = out.steps + 1
+				out.gcs++
+				runtime.GC()
+				runtime.GC()
 			}
 			g := dec.choose(out.steps, cand, last)
 			if !contains(cand, g) {
@@ -856,7 +864,7 @@ func execSched(spec *RunSpec, st *Stats) *Violation {
 		dec = newPolicyDecider(spec.Policy, spec.PolicyArg, spec.SchedSeed, n)
 	}
 	_ = newRaceReports() // anything printed before this run is not this run's
-	out := runSchedule(env, spec.Clients, trees, dec)
+	out := runSchedule(env, spec.Clients, trees, dec, spec.GCAt)
 	race := newRaceReports()
 	if spec.Decisions == nil {
 		spec.Decisions = out.decisions
@@ -869,6 +877,7 @@ func execSched(spec *RunSpec, st *Stats) *Violation {
 		st.Add("probe.unmodelled_block", int64(out.realBlocked))
 		st.Add("probe.preemptions", int64(out.preemptions))
 		st.Add("probe.mid_init_switch", int64(out.midInitSwitch))
+		st.Add("fired.gc", int64(out.gcs))
 		for k, v := range out.phaseOverlap {
 			st.Add("overlap."+k, int64(v))
 		}
